@@ -257,14 +257,16 @@ PROPS["C17"] = dict(
 
 PROPS["C19"] = dict(
     suites=[dict(name="watchdog", harness="watchdog", imports=["WatchdogCheck"], case_type="wd_case",
-                 check="wd_code", monitor="wd_code", count_quick=46, count_thorough=184, nontrivial_bits=3, shrink=False,
+                 check="wd_code", monitor="wd_code", count_quick=43, count_thorough=172, nontrivial_bits=3, shrink=False,
                  crash_is_violation=True)],
-    rule="watchdog: 46 fault scenarios, each in its own child process calling the real run(): udp (mio and io_uring) socket worker returning / "
+    rule="watchdog: 43 fault scenarios (36 injected faults, 7 set-up failures), each in its own child process calling the real run(): udp (mio and io_uring) socket worker returning / "
          "panicking at its first loop pass (start-up) or its 41st with 1 or 2 socket workers; udp cleaning and statistics workers returning / "
          "panicking at pass 1 or 3 (1-second intervals); the signal worker of each of the three trackers returning / panicking on SIGUSR1; ws "
          "socket worker returning / panicking at its 1st or 4th accepted connection with 1x1 or 2x2 workers; panics inside detached async "
          "tasks of the glommio workers (http accept task, http connection task, http swarm request handler, ws connection task, ws swarm "
-         "request handler) at the 1st or 3rd pass with 1x1 and 2x3 workers; the child drives datagrams / TCP / WebSocket traffic until the "
+         "request handler) at the 1st or 3rd pass with 1x1 and 2x3 workers; set-up failures of ONE listener / socket of a socket worker while "
+         "the other address family is fine (http, udp-mio, udp-uring: v4 port held by a socket without SO_REUSEPORT, or v6 address "
+         "2001:db8::1 not assigned to any interface; ws: port held), fault time = start of run(); the child drives datagrams / TCP / WebSocket traffic until the "
          "hook reports that the fault fired, then waits up to 14 s for run() to return; checked: run() returned, with an Err, within scan "
          "period + 4 s of the fault (5 + 4 < 10); non-trivial = the fault fired",
     modelled="the scan loop at the end of run() in crates/{udp,http,ws}/src/lib.rs (Watchdog.v) with period and join() arms regenerated from "
@@ -307,8 +309,9 @@ PROPS["C05"] = dict(
                  case_type="N * list (string * N) * list (N * string * string * bool)",
                  check="validator_code", monitor="validator_code", count_quick=300, count_thorough=20000, nontrivial_bits=3, shrink=False),
             dict(name="udp-sys-ids", harness="udp-sys", imports=["UdpSysCheck"], case_type="sys_case", check="udp_sys_code", monitor="udp_sys_code", count_quick=8, count_thorough=100, nontrivial_any=True, shrink=False, extra={"backend": "mio"}, crash_is_violation=True),
-            dict(name="udp-sys-ids-uring", harness="udp-sys", imports=["UdpSysCheck"], case_type="sys_case", check="udp_sys_code", monitor="udp_sys_code", count_quick=8, count_thorough=100, nontrivial_any=True, shrink=False, extra={"backend": "uring"}, crash_is_violation=True)],
-    rule="udp-sys-ids: the running-tracker suite of C06 on both backends (own / foreign-address / forged / other-instance / bit-flipped / expired connection ids; the tracker's clock read from marker connects): requests are answered exactly when the id is valid for the source; real ConnectionValidator with the clock override (hook H2): max_connection_age in {0,1,59,60,61,120,2^31,2^32-2,2^32-1}, ids issued "
+            dict(name="udp-sys-ids-uring", harness="udp-sys", imports=["UdpSysCheck"], case_type="sys_case", check="udp_sys_code", monitor="udp_sys_code", count_quick=8, count_thorough=100, nontrivial_any=True, shrink=False, extra={"backend": "uring"}, crash_is_violation=True),
+            dict(name="udp-quiet", harness="udp-quiet", imports=["UdpSysCheck"], case_type="bool * list (bool * bool)", check="quiet_code", monitor="quiet_code", count_quick=4, count_thorough=16, nontrivial_any=True, shrink=False, crash_is_violation=True)],
+    rule="udp-quiet: a tracker per case (mio with poll_timeout_ms = 1, or io_uring) with max_connection_age = 2 s, real time, no clock override: connect, one announce (must be answered), then NO traffic for 5 s (mio) / 9 s (io_uring), then an announce with the old id, which must stay unanswered - the validator's clock has to advance on a quiet tracker; udp-sys-ids: the running-tracker suite of C06 on both backends (own / foreign-address / forged / other-instance / bit-flipped / expired connection ids; the tracker's clock read from marker connects): requests are answered exactly when the id is valid for the source; real ConnectionValidator with the clock override (hook H2): max_connection_age in {0,1,59,60,61,120,2^31,2^32-2,2^32-1}, ids issued "
          "by the implementation at edge/random times for 6 addresses of both families, then queried at issue time, at t0+age-1 / t0+age / "
          "t0+age+1, at t0-59/-60/-61, at 2^32-1 and at random clocks, from the same and from other addresses, plus a third of all single-bit "
          "alterations, 4 double-bit alterations, a forged id and a far-future id per issued id; the keyed hash is read back from the "
